@@ -42,6 +42,9 @@ CLAIMED = {
  "C16": ("must-lockset analysis (with caller entry locksets) against a frozen guard table; happens-before shaped signer rule (writes locked, admin reads locked, service listener after the ready receive); uninterrupted-critical-section rule for check-then-consume; load-modify-save detection for profiles",
          "Every access to a guarded map holds its mutex outside single-threaded initialisation; the signer family is written under the state mutex or at start-up and read under it by the unsealing handlers, and the service listener starts only after the ready receive; challenge lookup+consume, the TOTP gate and the unsealing transition are single critical sections; every profile load-modify-save is detected - none is serialised today, recorded as 14 known findings (one per site) so that a new unserialised site is still reported.",
          "Schedules are not enumerated and the race detector is not run; sync.Mutex semantics and the channel happens-before rule are trusted. Lock-free reads of the published keys from the admin log filter are reported as an observation, not an obligation.", "DESIGN.md §3 C16"),
+ "C17": ("provenance classification of every redirect target (constants, constant prefixes, filter output, filter-only field, tabled off-origin), store rule for the pending federated destination, dominance of the filter's accepting return by its four character tests",
+         "Every http.Redirect / Location store in keymasterd has an on-origin constant (prefix) target, destination-filter output, or is one of three tabled by-design off-origin redirects; the pending federated destination only ever stores filter output; the filter returns the client's value only on paths dominated by: leading '/', no leading '//', no backslash in the path part, no control character.",
+         "Browser URL resolution is trusted to follow the stated character rules; http.Redirect's path cleaning is accounted for by the no-backslash test. A parser-based (opaque) filter would be reported as a violation rather than analysed.", "DESIGN.md §3 C17"),
  "C12": ("dominance of the token-minting calls by the conjunction of code/client/expiry/redirect/type facts, decision-structure classification of the client-authentication flag, shape check of the PKCE verifier, store-provenance of token fields",
          "Both minting calls of the token endpoint are dominated on all paths by the verified code, client authentication, client==code.sub, strict expiry, equal redirect_uri and the code type; the authentication flag is true only from PKCE (secret-less client) or a non-empty secret; the PKCE verifier compares against the challenge decrypted from the same code; token/code/userinfo fields have the stated provenance (field-store analysis).",
          "Trusts go-jose and JSON encoding. Field provenance is judged per store into the token structs in the current source.", "DESIGN.md §3 C12"),
